@@ -145,8 +145,11 @@ def gen(spec, lv):
 
 def gen_specs(tier, seed):
     specs = [("own", i) for i in range(len(OWN))]
-    s2 = c02.gen_specs("quick", seed)
+    s2 = c02.gen_specs("sample-only", seed)
     specs += [("c02", s) for s in (s2[:len(c02.META) * len(c02.STMTS)] + s2[len(c02.META) * len(c02.STMTS)::(6 if tier == "quick" else 1)])]
+    specs += [("c02", (mk, ())) for mk in c02.META]        # metadata only
+    # tdm programs re-declare their variables when serialised: every pair of statement variants (quick: the declaring ones)
+    specs += [("c02", s) for s in c02.tdm_pair_specs(varlike_only=(tier == "quick"))]
     # arrays: equal rows only; parameters only where the array is used as an argument (a parameter that occurs only in an
     # unused variable is not part of the serialised program: outside the claim)
     s5 = [s for s in c05.gen_specs("quick", seed) if s[0] == "scalar" or (len(set(s[2])) == 1 and s[3] in ("none", "exact") and (not s[4] or s[5] == "arg"))]
